@@ -6,10 +6,13 @@ PATCH="$(readlink -f "$1")"; shift
 cd /verif
 git -C /repo diff --quiet || { echo "/repo is not clean"; exit 2; }
 git -C /repo apply "$PATCH" || { echo "patch does not apply"; exit 2; }
+SAVE=$(mktemp -d)
+cp evidence/*.json "$SAVE"/ 2>/dev/null      # evidence must describe runs on the unchanged tree only
 for p in "$@"; do
   echo "== $p"
   ./check "$p" 2>/dev/null | tail -3
 done
 git -C /repo checkout -- .
+cp "$SAVE"/*.json evidence/ 2>/dev/null; rm -rf "$SAVE"
 # restore the generated fragment and build products for the unchanged tree
 python3 tools/extract.py > /dev/null
